@@ -7,6 +7,9 @@ mod state;
 #[cfg(test)]
 mod tests;
 
+#[cfg(minimq_verif)]
+mod verif_hooks;
+
 use crate::de::PacketReader;
 use crate::ser::MAX_FIXED_HEADER_SIZE;
 use crate::types::Auth;
